@@ -78,6 +78,7 @@ class Engine:
         self.obl = []  # (name, z3 bool, info)
         self.fresh_n = 0
         self.notes = []
+        self.shrink = []  # extra constraints tried when a counterexample is found, to get a small replayable model
 
     # ---- path state
     def start_path(self, prefix):
@@ -87,6 +88,7 @@ class Engine:
         self.obl = []
         self.fresh_n = 0
         self.notes = []
+        self.shrink = []
         self.solver.push()
 
     def end_path(self):
@@ -260,6 +262,10 @@ def explore(fn, setup=None, max_paths=20000, timeout_ms=5000, stop_on_fail=True,
                         if r == "unsat":
                             E.stats.discharged += 1
                         elif r == "sat":
+                            if E.shrink:
+                                r2, m2 = E._check(z3.Not(phi), *E.shrink)
+                                if r2 == "sat":
+                                    m = m2
                             E.stats.failed.append(
                                 dict(name=name, model=E.model_dict(m), info=info, decisions=list(E.trace),
                                      notes=list(E.notes))
